@@ -23,9 +23,48 @@ package charset
 //@   loop 1 invariant 0 <= firstNonWS && firstNonWS <= len(in)
 //@   loop 1 decreases len(in) - firstNonWS
 
+// UTF-8 (RFC 3629), transcribed: sequence length by lead byte, second-byte ranges.
+//@ spec u8size(b) = ite(b < 128, 1, ite(194 <= b && b <= 223, 2, ite(224 <= b && b <= 239, 3, ite(240 <= b && b <= 244, 4, 0))))
+//@ spec isCont(b) = 128 <= b && b <= 191
+//@ spec secondOK(l, b) = ite(l == 224, 160 <= b && b <= 191, ite(l == 237, 128 <= b && b <= 159, ite(l == 240, 144 <= b && b <= 191, ite(l == 244, 128 <= b && b <= 143, isCont(b)))))
+// a complete well-formed sequence starts at i
+//@ spec wellFormedAt(s, i) = 0 <= i && i < len(s) && u8size(s[i]) >= 1 && i + u8size(s[i]) <= len(s) && (u8size(s[i]) >= 2 ==> secondOK(s[i], s[i+1])) && (u8size(s[i]) >= 3 ==> isCont(s[i+2])) && (u8size(s[i]) >= 4 ==> isCont(s[i+3]))
+// a multi-byte sequence starts at i and is cut off by the end of s
+//@ spec incompleteAt(s, i) = 0 <= i && i < len(s) && u8size(s[i]) >= 2 && len(s) - i < u8size(s[i]) && (len(s) - i >= 2 ==> secondOK(s[i], s[i+1])) && (len(s) - i >= 3 ==> isCont(s[i+2]))
+//@ spec truncAt(s, k) = k <= len(s) && validUTF8(s[:len(s)-k]) && incompleteAt(s, len(s)-k)
+//@ spec truncValid(s) = validUTF8(s) || truncAt(s, 1) || truncAt(s, 2) || truncAt(s, 3)
+// ASCII text characters (BEL..CR, ESC, space..~), from the statement of C11
+//@ spec isAsciiText(b) = (7 <= b && b <= 13) || b == 27 || (32 <= b && b <= 126)
+//@ spec isC1(b) = 128 <= b && b <= 159
+
+//@ func charset.ascii
+//@   ensures [C11_ascii_sound] result ==> (forall i :: 0 <= i && i < len(content) ==> content[i] < 128)
+//@   ensures [C11_ascii_complete] (forall i :: 0 <= i && i < len(content) ==> isAsciiText(content[i])) ==> result
+//@   loop 1 invariant [C11_ascii_inv] forall j :: 0 <= j && j <= rangeindex ==> content[j] < 128
+
+//@ func charset.latin
+//@   ensures [C11_E4_1252] result == "windows-1252" ==> (exists i :: 0 <= i && i < len(content) && isC1(content[i]))
+//@   ensures [C11_E4_8859] result == "iso-8859-1" ==> (forall i :: 0 <= i && i < len(content) ==> !isC1(content[i]))
+//@   ensures result == "windows-1252" || result == "iso-8859-1" || len(result) == 0
+//@   loop 1 invariant [C11_E4_inv1] hasControlBytes ==> (exists j :: 0 <= j && j <= rangeindex && isC1(content[j]))
+//@   loop 1 invariant [C11_E4_inv2] !hasControlBytes ==> (forall j :: 0 <= j && j <= rangeindex ==> !isC1(content[j]))
+
 //@ func charset.FromPlain
+//@   assume [U1] forall n :: 0 <= n && n <= len(content) && (forall i :: 0 <= i && i < n ==> content[i] < 128) ==> validUTF8(content[:n])
+//@   assume [U2] len(content) > 0 && validUTF8(content) ==> (wellFormedAt(content, len(content)-1) && len(content)-1 + u8size(content[len(content)-1]) == len(content)) || (wellFormedAt(content, len(content)-2) && len(content)-2 + u8size(content[len(content)-2]) == len(content)) || (wellFormedAt(content, len(content)-3) && len(content)-3 + u8size(content[len(content)-3]) == len(content)) || (wellFormedAt(content, len(content)-4) && len(content)-4 + u8size(content[len(content)-4]) == len(content))
+//@   ensures [C11_E1] hasBOM(content) ==> len(result) != 0 && result != "windows-1252" && result != "iso-8859-1"
+//@   ensures [C11_E2] !hasBOM(content) && result == "utf-8" ==> truncValid(content)
+//@   ensures [C11_E3_ascii] !hasBOM(content) && len(content) > 0 && (forall i :: 0 <= i && i < len(content) ==> isAsciiText(content[i])) ==> result == "utf-8"
+//@   ensures [C11_E3_whole] !hasBOM(content) && len(content) > 0 && validUTF8(content) && (exists i :: 0 <= i && i < len(content) && content[i] >= 128) ==> result == "utf-8"
+//@   ensures [C11_E3_cut1] !hasBOM(content) && truncAt(content, 1) && (exists i :: 0 <= i && i < len(content) - 1 && content[i] >= 128) ==> result == "utf-8"
+//@   ensures [C11_E3_cut2] !hasBOM(content) && truncAt(content, 2) && (exists i :: 0 <= i && i < len(content) - 2 && content[i] >= 128) ==> result == "utf-8"
+//@   ensures [C11_E3_cut3] !hasBOM(content) && truncAt(content, 3) && (exists i :: 0 <= i && i < len(content) - 3 && content[i] >= 128) ==> result == "utf-8"
+//@   ensures [C11_E4_1252] !hasBOM(content) && result == "windows-1252" ==> (exists i :: 0 <= i && i < len(content) && isC1(content[i]))
+//@   ensures [C11_E4_8859] !hasBOM(content) && result == "iso-8859-1" ==> (forall i :: 0 <= i && i < len(content) ==> !isC1(content[i]))
 //@   loop 1 invariant -1 <= i && i < len(content) && sameSlice(content, old(content))
+//@   loop 1 invariant [C11_tail] forall j :: i < j && j < len(content) ==> isCont(content[j])
 //@   loop 1 decreases i + 1
+//@   loop 2 invariant [C11_high] !hasHighBit ==> (forall j :: 0 <= j && j <= rangeindex ==> content[j] < 128)
 
 //@ func charset.fromMetaElement
 //@   loop 1 decreases len(s)
